@@ -46,7 +46,8 @@ CHECKS = {
          "alternatives (refuted for non-linear), monotone, = Sub for concrete alternatives; engine model proved to "
          "accept iff fits for any list of base alternatives (C06_list) and, for the pattern alternatives F(b) and "
          "C(b) | R(b, _), to select the unique fitting alternative and resolve b by it, with the exact final store "
-         "(C06_pat; boundary: Bottom fits every alternative and leaves b open); every generated case's accept/reject compared with the verified "
+         "(C06_pat; boundary: Bottom fits every alternative and leaves b open); C06_engine_conc: accept iff fits, exact "
+         "outcome and between-ness for concrete alternatives of any shape; every generated case's accept/reject compared with the verified "
          "matcher, unique-fit and between-ness oracles",
          "4 C06", "Coq proof of the fits decision procedure + engine correspondence + oracle"),
  "C07": ("annotation half of add_expr and add_type with the type_nodes memo under all nine switches, on top of the "
